@@ -249,6 +249,17 @@ def attribute(devs, c, quirks=ALLQ, scripts=None):
     return out
 
 
+def attribute_for(chk, devs, c, scripts=None):
+    """attribute() for the deviations the property forbids only; the others are just counted by class."""
+    rel = RELEVANT[chk.pid]
+    idx = [i for i, d in enumerate(devs) if d["class"] in rel]
+    got = attribute([devs[i] for i in idx], c, scripts=None if scripts is None else [scripts[i] for i in idx])
+    who = [["not-attributed"]] * len(devs)
+    for i, w in zip(idx, got):
+        who[i] = w
+    return who
+
+
 def report(chk, devs, who, source):
     rel = RELEVANT[chk.pid]
     oos = chk.cov.setdefault("out_of_scope_deviations", {})
@@ -302,27 +313,32 @@ def plain_report(chk, devs, prefix, source):
         chk.violation(sig, "%s (%s)" % (d["text"], source), {"source": source, "origin": d.get("origin"), "sql": d.get("sql")})
 
 
-def run_uniq(chk, binp, wd, futs):
-    """futs: {idx: future of uniq_cases}; replays all case files in one store."""
-    files = []
-    ncases = 0
+def uniq_exec(binp, wd, futs):
+    """futs: {idx: (path, future of uniq_cases)}; replays all case files in one store. (runs in a worker thread)"""
+    tl, files, ncases = [], [], 0
     for idx, (path, fut) in futs.items():
         res, n = fut.result()
-        chk.add_tlc(res, "SQLUniq index (%s): %d cases, Refused/Applied/NoDuplicates TRUE" % (",".join(idx), n))
+        tl.append((res, "SQLUniq index (%s): %d cases, Refused/Applied/NoDuplicates TRUE" % (",".join(idx), n)))
         files.append(path)
         ncases += n
     t0 = time.time()
-    dd = os.path.join(wd, "uniqd")
-    out, _ = vlib.run_harness(binp, ["-uniq", ",".join(files), "-dir", dd], timeout=1200)
-    r = json.loads(out)
+    out, _ = vlib.run_harness(binp, ["-uniq", ",".join(files), "-dir", os.path.join(wd, "uniqd")], timeout=1200)
+    return {"tlc": tl, "r": json.loads(out), "ncases": ncases, "secs": time.time() - t0, "idx": sorted(futs)}
+
+
+def uniq_post(chk, d):
+    for res, name in d["tlc"]:
+        chk.add_tlc(res, name)
+    r = d["r"]
     devs = (r.get("extra") or {}).pop("deviations", None) or []
     vlib.absorb(chk, r)
     ctr = r.get("counters") or {}
     # vacuity: every non-empty subset of the indexed columns was changed by UPDATE and by UPSERT, towards a colliding and a free tuple
-    for idx in futs:
+    for idx in d["idx"]:
         cols = list(idx)
         for mask in range(1, 1 << len(cols)):
-            m = "".join(c for c in "abd" if c in [cols[i] for i in range(len(cols)) if mask >> i & 1])
+            sel = [cols[i] for i in range(len(cols)) if mask >> i & 1]
+            m = "".join(c for c in "abd" if c in sel)
             for kind in ("upd", "ups"):
                 for coll in ("collide", "free"):
                     key = "uniq:target:%s:%s:%s:%s" % (idx, kind, m, coll)
@@ -331,9 +347,10 @@ def run_uniq(chk, binp, wd, futs):
         if not ctr.get("uniq:target-outcome:%s:collide:err" % idx):
             raise MachineryFault("vacuous: no colliding composite update was refused by the engine for index %s" % idx)
     plain_report(chk, devs, "sqluniq", "composite unique index cases of SQLUniq.tla")
-    chk.cov["composite_unique"] = {"indexes": sorted(futs), "cases": ncases, "steps": r.get("evaluations", 0),
+    chk.cov["composite_unique"] = {"indexes": d["idx"], "cases": d["ncases"], "steps": r.get("evaluations", 0),
+                                   "changed_subsets_exercised": len([k for k in ctr if k.startswith("uniq:target:")]),
                                    "targets": {k[len("uniq:target-outcome:"):]: v for k, v in ctr.items() if k.startswith("uniq:target-outcome:")}}
-    vlib.log("[uniq] %d cases replayed in %.1fs, %d deviations" % (ncases, time.time() - t0, len(devs)))
+    vlib.log("[uniq] %d cases replayed in %.1fs, %d deviations" % (d["ncases"], d["secs"], len(devs)))
 
 
 # ------------------------------------------------------------------ catalog visibility across sessions (spec/SQLCat.tla)
@@ -411,29 +428,47 @@ def cat_scripts(scripts):
     return res, bs
 
 
-def run_cat(chk, binp, wd, fut_design, fut_broken, fut_sim):
-    behaviours = []
-    scripts = []
+# the two ways to break the cache protocol, as TLC finds them on the broken model (thorough tier searches them again)
+CAT_SCRIPTS = {
+    "populate_ignores_version": [(1, "begin", 0, ""), (2, "crUIdx", 0, ""), (1, "commit", 0, ""), (1, "ins", 1, "a"), (1, "ins", 2, "a")],
+    "no_invalidate": [(1, "showcat", 0, ""), (1, "crUIdx", 0, ""), (1, "ins", 1, "a"), (1, "ins", 2, "a")],
+}
+
+
+def cat_exec(binp, wd, fut_design, fut_broken, fut_sim):
+    """(runs in a worker thread)"""
+    tl, behaviours, scripts = [], [], []
     for quirk, fut in fut_broken:
         res, stmts = fut.result()
-        chk.add_tlc(res, "SQLCat protocol broken in the model (%s) -> ConstraintsHold violated after %d steps" % (quirk, len(stmts)))
+        tl.append((res, "SQLCat protocol broken in the model (%s) -> ConstraintsHold violated after %d steps" % (quirk, len(stmts))))
         scripts.append((quirk, stmts))
-    res, bs = cat_scripts([s for _, s in scripts])
-    chk.add_tlc(res, "SQLCat scripted design run")
+    have = {q for q, _ in scripts}
+    for q, sc in CAT_SCRIPTS.items():
+        if q not in have:
+            scripts.append((q, [{"s": a, "k": b, "id": c, "u": d} for a, b, c, d in sc]))
+    res, bs = cat_scripts([sc for _, sc in scripts])
+    tl.append((res, "SQLCat driven by the %d broken-protocol scenarios (design observations)" % len(scripts)))
+    key = lambda sc: [(m["s"], m["k"], m["id"], m["u"]) for m in sc]
     for steps in bs:
-        q = [q for q, s in scripts if [(m["s"], m["k"], m["id"], m["u"]) for m in s] == [(m["s"], m["k"], m["id"], m["u"]) for m in steps]]
-        behaviours.append({"origin": "tlc-counterexample-of-broken-protocol:%s" % (q[0] if q else "?"), "steps": steps})
+        q = [q for q, sc in scripts if key(sc) == key(steps)]
+        behaviours.append({"origin": "broken-protocol-scenario:%s" % (q[0] if q else "?"), "steps": steps})
     for fut in fut_sim:
         res, b = fut.result()
-        chk.add_tlc(res, "SQLCat -simulate")
+        tl.append((res, "SQLCat -simulate (%d behaviours)" % len(b)))
         behaviours += b
     for name, fut in fut_design:
-        chk.add_tlc(fut.result(), "SQLCat design [%s]" % name)
+        tl.append((fut.result(), "SQLCat design [%s]" % name))
     t0 = time.time()
     p = os.path.join(wd, "cat.json")
     json.dump({"behaviours": behaviours}, open(p, "w"))
     out, _ = vlib.run_harness(binp, ["-cat", p, "-dir", os.path.join(wd, "catd")], timeout=1200)
-    r = json.loads(out)
+    return {"tlc": tl, "r": json.loads(out), "n": len(behaviours), "secs": time.time() - t0}
+
+
+def cat_post(chk, d):
+    for res, name in d["tlc"]:
+        chk.add_tlc(res, name)
+    r = d["r"]
     devs = (r.get("extra") or {}).pop("deviations", None) or []
     vlib.absorb(chk, r)
     ctr = r.get("counters") or {}
@@ -441,12 +476,10 @@ def run_cat(chk, binp, wd, fut_design, fut_broken, fut_sim):
         if not ctr.get(need):
             raise MachineryFault("vacuous: catalog behaviours never reached %s on the real engine" % need)
     plain_report(chk, devs, "sqlcat", "catalog behaviours of SQLCat.tla on one sql.Engine")
-    chk.cov["catalog_visibility"] = {"behaviours": len(behaviours), "steps": r.get("evaluations", 0),
+    chk.cov["catalog_visibility"] = {"behaviours": d["n"], "steps": r.get("evaluations", 0),
                                      "cold_open_concurrent_ddl_empty_commit": ctr.get("cat:pattern:cold-open+concurrent-ddl+empty-commit", 0),
                                      "then_insert": ctr.get("cat:pattern:...then-insert", 0)}
-    vlib.log("[cat] %d behaviours replayed in %.1fs, %d deviations" % (len(behaviours), time.time() - t0, len(devs)))
-
-
+    vlib.log("[cat] %d behaviours replayed in %.1fs, %d deviations" % (d["n"], d["secs"], len(devs)))
 
 
 # ------------------------------------------------------------------ the two profiles
@@ -457,12 +490,12 @@ def profile(pid, tier):
         design = [
             # constraint checks under every interleaving of two transactions / autocommit statements
             ("2 tx sessions x 3", consts(NS=2, MaxStmts=3, VVals={"p"}, ExplIds={1}, Kinds={"begin", "commit", "insA", "del", "ups", "updU"}), 3),
-            ("tx + autocommit, illegal values, explicit keys", consts(NS=2, MaxStmts=3, VVals={"p"}, ExplIds={1}, TxSessions={1},
-                                                                  Kinds={"begin", "commit", "rollback", "insA", "insAbad", "insE", "insN", "updV", "delAll"}), 3),
             ("ddl: create unique index on a populated table", consts(NS=2, MaxStmts=3, VVals={"p"}, ExplIds={1}, TxSessions={1}, InitUIdx=False,
                                                                  Kinds={"begin", "commit", "insA", "del", "crIdx"}), 2),
         ]
         if thorough:
+            design += [("tx + autocommit, illegal values, explicit keys", consts(NS=2, MaxStmts=3, VVals={"p"}, ExplIds={1}, TxSessions={1},
+                                                                              Kinds={"begin", "commit", "rollback", "insA", "insAbad", "insE", "insN", "updV", "delAll"}), 4)]
             design += [("2 tx sessions + 1 autocommit session x 3", consts(NS=3, MaxStmts=3, VVals={"p"}, ExplIds={1}, TxSessions={1, 2}, Kinds={"begin", "commit", "insA", "del"}), 8),
                        ("2 tx sessions x 4", consts(NS=2, MaxStmts=4, VVals={"p"}, ExplIds={1}, Kinds={"begin", "commit", "insA", "del", "ups", "updU"}), 8)]
         code = [
@@ -470,8 +503,8 @@ def profile(pid, tier):
             ("ddl_first_pk_only", consts(NS=1, MaxStmts=5, VVals={"p"}, TxSessions=set(), InitUIdx=False, Kinds={"insA", "del", "crIdx"}, Quirks={"ddl_first_pk_only"}), {"ConstraintsHold"}),
         ]
         sim = [
-            (consts(NS=3, MaxStmts=5, TxSessions={1, 2}, Kinds=set(ALLKINDS) - {"crIdx", "sp", "rbto", "rel"}), 1200 if thorough else 150),
-            (consts(NS=2, MaxStmts=6, InitUIdx=False, TxSessions={1}, Kinds={"begin", "commit", "insA", "insE", "ups", "updU", "del", "delAll", "crIdx", "selAll"}), 400 if thorough else 50),
+            (consts(NS=3, MaxStmts=5, TxSessions={1, 2}, Kinds=set(ALLKINDS) - {"crIdx", "sp", "rbto", "rel"}), 1200 if thorough else 100),
+            (consts(NS=2, MaxStmts=6, InitUIdx=False, TxSessions={1}, Kinds={"begin", "commit", "insA", "insE", "ups", "updU", "del", "delAll", "crIdx", "selAll"}), 400 if thorough else 40),
         ]
         if thorough:
             sim += [(consts(NS=2, MaxStmts=8, Kinds=set(ALLKINDS) - {"crIdx"}), 800)]
@@ -483,8 +516,9 @@ def profile(pid, tier):
                            cat_consts(NS=2, MaxStmts=4, Kinds={"begin", "commit", "rollback", "ins", "crUIdx", "addCol", "showcat"}), 3)] +
                          ([("3 sessions x 3, all DDL kinds", cat_consts(NS=3, MaxStmts=3, MaxId=2), 8),
                            ("2 sessions x 5", cat_consts(NS=2, MaxStmts=5, Kinds={"begin", "commit", "ins", "crUIdx", "crWIdx", "showcat", "sel"}), 8)] if thorough else []),
-               "broken": [("populate_ignores_version", cat_consts(NS=2, MaxStmts=4, Kinds={"begin", "commit", "ins", "crUIdx"})),
-                          ("no_invalidate", cat_consts(NS=1, MaxStmts=5, Kinds={"ins", "crUIdx", "showcat"}))],
+               # quick replays the two recorded scenarios (CAT_SCRIPTS); thorough lets TLC search them on the broken model again
+               "broken": ([("populate_ignores_version", cat_consts(NS=2, MaxStmts=4, Kinds={"begin", "commit", "ins", "crUIdx"})),
+                           ("no_invalidate", cat_consts(NS=1, MaxStmts=5, Kinds={"ins", "crUIdx", "showcat"}))] if thorough else []),
                "sim": [(cat_consts(NS=3, MaxId=3, UVals={"a", "b"}, MaxStmts=4), 600 if thorough else 90)]}
         return {"design": design, "code": [x for x in code if x[0] not in FIXEDQ], "sim": sim, "uniq": uniq, "cat": cat}
     design = [
@@ -526,7 +560,8 @@ def run_sqltx(chk, args):
 
     # 1. design, exhaustive; 2. code as transcribed, one quirk at a time; 3. simulation of the design (all in parallel)
     t0 = time.time()
-    with cf.ThreadPoolExecutor(int(os.environ.get("VERIF_PAR", "8"))) as ex:
+    ex = cf.ThreadPoolExecutor(int(os.environ.get("VERIF_PAR", "8")))
+    if True:
         fd = [(name, ex.submit(mc_design, name, c, w)) for name, c, w in prof["design"]]
         fc = [(name, c, ex.submit(mc_code, name, c, expect)) for name, c, expect in prof["code"]]
         fs = [(c, num, ex.submit(simulate, c, num, chk.seed * 1000 + i)) for i, (c, num) in enumerate(prof["sim"])]
@@ -567,21 +602,34 @@ def run_sqltx(chk, args):
         if not kinds.get(need):
             raise MachineryFault("vacuous: no %s step among the generated behaviours" % need)
 
-    # 4. replay on the real engine, 5. attribution
+    # 4. replay on the real engine (all harness runs side by side), 5. attribution
     selftest = bool(os.environ.get("VERIF_SELFTEST"))
-    for uidx, bs in behaviours.items():
+
+    def h_replay(uidx, bs):
         p = os.path.join(wd, "beh_%d.json" % uidx)
         json.dump({"uidx": uidx, "behaviours": bs}, open(p, "w"))
         dd = os.path.join(wd, "d%d" % uidx)
         os.makedirs(dd)
         t0 = time.time()
         out, _ = vlib.run_harness(binp, ["-replay", p, "-dir", dd] + (["-selftest"] if selftest and uidx else []), timeout=1500)
-        r = json.loads(out)
+        return uidx, len(bs), json.loads(out), time.time() - t0
+
+    hx = cf.ThreadPoolExecutor(5)
+    jr = [hx.submit(h_replay, uidx, bs) for uidx, bs in behaviours.items()]
+    ju = hx.submit(uniq_exec, binp, wd, fu) if fu else None
+    jc = hx.submit(cat_exec, binp, wd, fcd, fcb, fcs) if pc else None
+    # 6. trace validation (meanwhile, in this thread)
+    t0 = time.time()
+    thorough = chk.tier == "thorough"
+    trace_validation(chk, binp, wd, runs=40 if thorough else 8, workers=3, units=12 if thorough else 8)
+    vlib.log("[tv] %.1fs" % (time.time() - t0))
+    for j in jr:
+        uidx, nb, r, secs = j.result()
         devs = (r.get("extra") or {}).pop("deviations", None) or []
         vlib.absorb(chk, r)
         t1 = time.time()
-        who = attribute(devs, dict(base, InitUIdx=uidx))
-        vlib.log("[replay] uidx=%s %d behaviours %.1fs, %d deviations attributed in %.1fs" % (uidx, len(bs), t1 - t0, len(devs), time.time() - t1))
+        who = attribute_for(chk, devs, dict(base, InitUIdx=uidx))
+        vlib.log("[replay] uidx=%s %d behaviours %.1fs, %d deviations attributed in %.1fs" % (uidx, nb, secs, len(devs), time.time() - t1))
         report(chk, devs, who, "replay of TLC behaviours")
     chk.cov["behaviours_replayed"] = sum(len(b) for b in behaviours.values())
     chk.cov["steps_replayed"] = chk.cov["evaluations"]
@@ -597,20 +645,16 @@ def run_sqltx(chk, args):
         nb = r.get("distinct_nontrivial", 0)
         r["distinct_nontrivial"] = 0
         vlib.absorb(chk, r)
-        who = attribute(devs, dict(base, InitUIdx=True))
+        who = attribute_for(chk, devs, dict(base, InitUIdx=True))
         report(chk, devs, who, "replay through the PostgreSQL wire front-end")
         chk.cov["pgwire"] = {"behaviours": nb, "steps": r.get("evaluations", 0), "deviations": len(devs)}
         vlib.log("[pgwire] %d behaviours %.1fs, %d deviations" % (nb, time.time() - t0, len(devs)))
     # 5b. C12: composite unique indexes (directed enumeration) and catalog visibility across the sessions of one engine
-    if fu:
-        run_uniq(chk, binp, wd, fu)
-    if pc:
-        run_cat(chk, binp, wd, fcd, fcb, fcs)
-    # 6. trace validation
-    t0 = time.time()
-    thorough = chk.tier == "thorough"
-    trace_validation(chk, binp, wd, runs=40 if thorough else 10, workers=3, units=12 if thorough else 8)
-    vlib.log("[tv] %.1fs" % (time.time() - t0))
+    if ju:
+        uniq_post(chk, ju.result())
+    if jc:
+        cat_post(chk, jc.result())
+    hx.shutdown()
     return binp, wd
 
 
@@ -754,7 +798,7 @@ def trace_validation(chk, binp, wd, runs, workers, units):
                           "sql": None, "expected": None, "observed": [dict(x) for x in full[j]][-14:]})
             bwho.append(who_b)
         report(chk, bdevs, bwho, "trace validation of free-running sessions")
-    who = attribute(devs, c, scripts=dscripts)
+    who = attribute_for(chk, devs, c, scripts=dscripts)
     report(chk, devs, who, "trace validation of free-running sessions")
     chk.cov["traces_validated_against_impl"] += validated
     chk.cov["free_runs"] = {"runs": len(meta), "accepted_in_full": validated, "committed_units": sum(m["committed"] for m in meta),
